@@ -312,6 +312,17 @@ def extreme_arg_events(rnd, eid0):
                 calls.append((z, "freq_shift", [f], lambda z=z, f=f: pb.freq_shift(z, f)))
         for t in (np.array(2.0), np.array(2.5), np.array(float(n)), np.array(-1.0), np.array(0.0)):
             calls.append((z, "snippet_int" if float(t) == int(t) else "snippet_frac", [t], lambda z=z, t=t: pb.snippet(z, t, 3)))
+        # offsets a hair off a whole sample (below any "is it zero" tolerance of the sub-sample shift), in every form,
+        # at rates where that hair is resolvable in a Time
+        for rate in (1 * u.Hz, 1 * u.kHz):
+            zl = type(z).like(z, sample_rate=rate)
+            for k, eps in ((4, 1e-9), (4, 5e-9), (7, 1e-8), (3, 2e-10), (5, -1e-9), (0, 3e-9)):
+                tf = k + eps
+                tq = (tf / rate).to(u.s)
+                tt = zl.start_time + tq
+                for form, t in (("float", tf), ("duration", tq), ("time", tt)):
+                    calls.append((zl, "snippet_frac", [t] if not isinstance(t, float) else [],
+                                  lambda zl=zl, t=t: pb.snippet(zl, t, 3)))
     for z, name, argobjs, call in calls:
         P = Pool()
         zb = P.buf_id(z.data)
